@@ -65,7 +65,12 @@ def parseGap (j : Json) : Except String Spec.Gap := do
   match k with
   | "blanks" => pure (.blanks (getNat j "n" 0))
   | "newline" => pure (.newline (getNat j "n" 0))
-  | "amp" => pure (.amp (getNat j "pre" 0) (getNat j "t" 0) (getNat j "n" 0))
+  | "amp" =>
+    let cs ← match j.getObjVal? "cs" with
+      | .ok (Json.arr a) => a.toList.mapM fun c => do
+          pure (getNat c "ind" 0, (← (← c.getObjVal? "text").getStr?).toList)
+      | _ => pure []
+    pure (.amp (getNat j "pre" 0) (getNat j "t" 0) cs (getNat j "n" 0))
   | "dollar" => pure (.dollar (getNat j "pre" 0) (← (← j.getObjVal? "text").getStr?).toList (getNat j "n" 0))
   | "comments" =>
     let cs ← (← j.getObjVal? "cs").getArr?
